@@ -134,45 +134,60 @@ def run_bounds(funcs, o, tier):
     if len(roots) != 1:
         rec.update(verdict="inconclusive", reason="parent pattern resolves to %d functions" % len(roots), wall_s=0)
         return rec
-    parent = funcs[roots[0]][0]
-    # closure identity -> body
+    module = roots[0].rsplit("::", 1)[0] + "::"
+    # closure identity -> body, for every closure of the module (the transformers may live in helpers)
     by_ident = {}
     for name, fl in funcs.items():
-        if name.startswith(roots[0] + "::{closure#"):
+        if name.startswith(module) and "{closure#" in name:
             for f in fl:
                 m = re.match(r"_1: (?:&mut |&)?(\{closure@[^}]*\})", f.params or "")
                 if m:
                     by_ident[m.group(1)] = f
+    # bound transformations of integer literals: in the parent or in any function of its module
     sites = {}
-    for b in parent.blocks.values():
-        if b.kind != "call":
+    for name, fl in funcs.items():
+        if not name.startswith(module) or "{closure#" in name:
             continue
-        m = re.match(r"tantivy_common::bounds::BoundsRange::<(i64|u64)>::(transform_inner|map_bound)::<u64, (.*)>$", b.call["callee"])
-        if not m:
-            continue
-        idents = re.findall(r"\{closure@[^}]*\}", m.group(3))
-        line = int(re.search(r"\.rs:(\d+):", idents[0]).group(1))
-        sites.setdefault(m.group(1), []).append((line, m.group(2), idents))
+        for fbody in fl:
+            for b in fbody.blocks.values():
+                if b.kind != "call":
+                    continue
+                m = re.match(r"tantivy_common::bounds::BoundsRange::<(i64|u64)>::(transform_inner|map_bound)::<u64, (.*)>$", b.call["callee"])
+                if not m:
+                    continue
+                idents = re.findall(r"\{closure@[^}]*\}", m.group(3))
+                if not idents:
+                    continue
+                line = int(re.search(r"\.rs:(\d+):", idents[0]).group(1))
+                sites.setdefault(m.group(1), []).append((line, m.group(2), idents))
     queries = 0; solver_s = 0.0; failed = []; detail = {"arms": []}; encoded = set(); summaries = set()
     verdict = "discharged"; reason = None; witnessed = True
     SIGNED = {"i64": True, "u64": False}
-    for from_ty, cols in spec["arms"].items():
+    OTHER = {"i64": "u64", "u64": "i64"}
+    for from_ty in spec["literals"]:
         arms = sorted(sites.get(from_ty, []))
-        kinds = [("transform_inner" if c != from_ty and c != "f64" else "map_bound") for c in cols]
-        if [a[1] for a in arms] != kinds:
-            verdict = "inconclusive"; reason = "bound transformations of %s literals changed shape: found %s, the obligation expects %s" % (from_ty, [a[1] for a in arms], kinds)
+        n_t = len([a_ for a_ in arms if a_[1] == "transform_inner"]); n_m = len([a_ for a_ in arms if a_[1] == "map_bound"])
+        if n_t != 1 or n_m < 1:
+            verdict = "inconclusive"; reason = "bound transformations of %s literals changed shape: %d transform_inner and %d map_bound sites in %s" % (from_ty, n_t, n_m, module)
             continue
-        for (line, kind, idents), col in zip(arms, cols):
-            if col == "f64":
-                continue    # float columns: outside this obligation (stated in the bounds)
+        decided_same = 0
+        for (line, kind, idents) in arms:
+            # a cross-type integer column goes through transform_inner; map_bound serves the column of
+            # the literal's own type (and the f64 column, whose closure converts to float: skipped)
+            col = OTHER[from_ty] if kind == "transform_inner" else from_ty
             ex = BVX.Exec(funcs)
             q = BVX.BV("q", 64, SIGNED[from_ty])
             try:
                 bodies = [by_ident[i] for i in idents]
                 paths = [ex.run(f, [None, q]) for f in bodies]
             except (BVX.Unsupported, KeyError) as e:
+                if kind == "map_bound" and ("IntToFloat" in repr(e) or "f64" in repr(e)):
+                    detail["arms"].append({"literal": from_ty, "column": "f64", "kind": kind, "closures": idents, "skipped": "float column: outside this obligation"})
+                    continue
                 verdict = "inconclusive"; reason = "bv execution of the %s-literal / %s-column arm: %r" % (from_ty, col, e)
                 continue
+            if kind == "map_bound":
+                decided_same += 1
             encoded |= set(ex.bodies); summaries |= set(ex.summaries_used)
             head = ["(set-logic QF_BV)", "(declare-const q (_ BitVec 64))", "(declare-const c (_ BitVec 64))",
                     "(define-fun m () (_ BitVec 64) %s)" % ("(bvxor c %s)" % BVX.lit(1 << 63, 64) if col == "i64" else "c"),
@@ -238,6 +253,8 @@ def run_bounds(funcs, o, tier):
                                    "probe": ["json_range", from_ty, col, side, bkind, str(sg(qv, from_ty)), str(sg(cv, col))]})
                 arm["checks"].append(cd)
             detail["arms"].append(arm)
+        if decided_same < 1 and verdict == "discharged":
+            verdict = "inconclusive"; reason = "no map_bound transformation of %s literals onto a %s column could be executed" % (from_ty, from_ty)
     native = [tuple(f["probe"]) for f in failed[:3]]
     rec.update(verdict=verdict, reason=reason, queries=queries, solver_s=round(solver_s, 3), failed=failed, native=native or None,
                witnessed=witnessed and verdict == "discharged", detail=detail,
@@ -342,28 +359,39 @@ def run_sortkey(funcs_unused, o, tier, scratch):
     if funcs is None:
         rec.update(verdict="inconclusive", reason="MIR dump of %s failed: %s" % (spec["crate"], _CACHE.get("err:" + spec["crate"], "")), wall_s=0)
         return rec
-    cands = [f for n in find_roots(funcs, spec["closure"]) for f in funcs[n]
-             if re.search(spec["param"], f.params or "") and f.ret.strip() == spec["ret"]]
-    if len(cands) != 1:
-        rec.update(verdict="inconclusive", reason="sort-key closure pattern resolves to %d bodies" % len(cands), wall_s=round(time.time() - t0, 2))
+    cands = []
+    for n in find_roots(funcs, spec["closure"]):
+        for f in funcs[n]:
+            pm = re.search(r"_(\d+): " + spec["param_ty"] + r"(?:,|$)", f.params or "")
+            if pm and f.ret.strip() in spec["rets"]:
+                cands.append((f, int(pm.group(1))))
+    if not cands:
+        rec.update(verdict="inconclusive", reason="no body under %r takes a %s and returns a sort key" % (spec["closure"], spec["param_ty"]), wall_s=round(time.time() - t0, 2))
         return rec
-    f = cands[0]
-    queries = 0; solver_s = 0.0; failed = []; detail = {"closure": f.name, "variants": []}
+    queries = 0; solver_s = 0.0; failed = []; detail = {"bodies": [f.name for f, _ in cands], "variants": []}
     verdict = "discharged"; reason = None; witnessed = True; summaries = set()
-    for variant, ty in spec["variants"]:
+    for f, pidx in cands:
+      for variant, ty in spec["variants"]:
         w, signed = BVX.INT_TYPES[ty]
         keys = []
         try:
             for nm in ("a", "b"):
                 ex = BVX.Exec(funcs)
-                outs = ex.run(f, [None, BVX.ENUM(spec["enum"], variant, [BVX.BV(nm, w, signed)])])
+                args = [None] * pidx
+                args[pidx - 1] = BVX.ENUM(spec["enum"], variant, [BVX.BV(nm, w, signed)])
+                outs = ex.run(f, args)
                 summaries |= set(ex.summaries_used)
-                if len(outs) != 1 or outs[0][1].get("variant") != "Some":
-                    raise BVX.Unsupported("%d paths / not Some(..) for variant %s" % (len(outs), variant))
-                keys.append((BVX.conj(outs[0][0]), outs[0][1]["fields"][0]["e"]))
+                if len(outs) != 1:
+                    raise BVX.Unsupported("%d paths for variant %s" % (len(outs), variant))
+                v = outs[0][1]
+                if v.get("k") == "enum" and v.get("variant") == "Some":
+                    v = v["fields"][0]
+                if v.get("k") != "bv":
+                    raise BVX.Unsupported("key of variant %s is not an integer" % variant)
+                keys.append((BVX.conj(outs[0][0]), v["e"]))
         except BVX.Unsupported as e:
             verdict = "inconclusive" if verdict != "violated" else verdict
-            reason = "bv execution for variant %s: %r" % (variant, e)
+            reason = "bv execution of %s for variant %s: %r" % (f.name, variant, e)
             continue
         lt = "bvslt" if signed else "bvult"
         head = ["(set-logic QF_BV)", "(declare-const a (_ BitVec %d))" % w, "(declare-const b (_ BitVec %d))" % w]
@@ -373,7 +401,7 @@ def run_sortkey(funcs_unused, o, tier, scratch):
         qw = "\n".join(head + ["(assert (%s a b))" % lt, "(assert (bvult %s %s))" % (keys[0][1], keys[1][1]), "(check-sat)"])
         rw, _, d3 = _smt(qw, "z3")
         queries += 3; solver_s += d1 + d2 + d3
-        vd = {"variant": variant, "type": ty, "z3": r1, "cvc5": r2, "witness": rw}
+        vd = {"body": f.name, "variant": variant, "type": ty, "z3": r1, "cvc5": r2, "witness": rw}
         if rw != "sat":
             witnessed = False
         if r1 != r2 or r1 not in ("sat", "unsat"):
@@ -381,7 +409,7 @@ def run_sortkey(funcs_unused, o, tier, scratch):
             reason = "solvers disagree / error on variant %s: %s / %s" % (variant, r1, r2)
         elif r1 == "sat":
             mv = dict(re.findall(r"\((a|b) #x([0-9a-f]+)\)", out1))
-            sg = lambda v: v - (1 << w) if signed and v >= (1 << (w - 1)) else v
+            sg = lambda v_: v_ - (1 << w) if signed and v_ >= (1 << (w - 1)) else v_
             av, bv_ = sg(int(mv.get("a", "0"), 16)), sg(int(mv.get("b", "0"), 16))
             vd["counterexample"] = {"a": av, "b": bv_}
             verdict = "violated"
@@ -389,6 +417,7 @@ def run_sortkey(funcs_unused, o, tier, scratch):
                            "desc": "sort key of %s values is not order preserving: a = %d, b = %d" % (ty, av, bv_),
                            "probe": ["sorted_segment", ty, str(av), str(bv_)]})
         detail["variants"].append(vd)
+    f = cands[0][0]
     rec.update(verdict=verdict, reason=reason, queries=queries, solver_s=round(solver_s, 3), failed=failed,
                native=[tuple(x["probe"]) for x in failed[:2]] or None, witnessed=witnessed and verdict == "discharged",
                detail=detail, functions=[f.name], assumes=list(o.get("assumes", [])) + ["summary: " + s_ for s_ in sorted(summaries)],
